@@ -247,6 +247,29 @@ def run_case(ctx, i, rng):
         if e:
             ctx.violation("element-root:%s" % what.replace(" ", "-"), "%s | %s" % (e, st))
             return
+    # mixed collections of roots (netlist + definition, netlist + instance): the union, each occurrence still exactly once
+    w_all = collections.Counter(want["instances"])
+    w_all.pop((id(top),), None)
+    for d in pick(defs, 3):
+        wu = collections.Counter(w_all)
+        for s in occ["instances"]:
+            if s[-1].reference is d:
+                wu[ids(s)] = 1
+        ctx.count("element_root_queries")
+        ctx.count("mixed_root_queries")
+        e = cmp(ctx, "get_hinstances([netlist, definition], recursive=True)", list(sdn.get_hinstances([n, d], recursive=True)), wu)
+        if e:
+            ctx.violation("mixed-roots:netlist+definition", "%s | %s" % (e, st))
+            return
+        for x in pick(d.children, 1):
+            wu = collections.Counter(w_all)
+            for k_, v_ in by_last.get(("instances", id(x)), {}).items():
+                wu[k_] = 1
+            ctx.count("mixed_root_queries")
+            e = cmp(ctx, "get_hinstances([instance, netlist], recursive=True)", list(sdn.get_hinstances([x, n], recursive=True)), wu)
+            if e:
+                ctx.violation("mixed-roots:instance+netlist", "%s | %s" % (e, st))
+                return
     # HRef roots: the sub-tree below an occurrence
     hinsts = [h for h in held if isinstance(h.item, sdn.Instance)]
     for h in pick(hinsts, 5):
